@@ -2,7 +2,8 @@
 """Regenerates MANIFEST.json from props.py so that the two never drift."""
 import json, os, sys
 sys.path.insert(0, os.path.dirname(os.path.abspath(__file__)))
-from props import PROPS, COMMON_TRUSTED, NOT_APPLICABLE
+from props import PROPS as _ALL, COMMON_TRUSTED, NOT_APPLICABLE, PENDING
+PROPS = {k: v for k, v in _ALL.items() if k not in PENDING}
 
 ids = [json.loads(l)["id"] for l in open(os.path.join(os.path.dirname(os.path.abspath(__file__)), "properties.jsonl"))]
 checks = []
